@@ -1,13 +1,13 @@
 (* C14 - interface lemmas: the fragments regenerated from distributions.py (Gen/Frag_dist.v,
    over Q with the transcendental sub-terms as inputs) are the assembly used by Model/Distributions.v. *)
-From Coq Require Import Reals QArith Qreals List Lra ZArith.
+From Coq Require Import Reals QArith Qreals List Lra ZArith Lia ZifyBool.
 From SB3V Require Import Gen.Frag_dist Model.Distributions.
 Import ListNotations.
 Local Open Scope R_scope.
 
 (* sum_independent_dims: per-row sums exactly for rank >= 2 *)
 Lemma frag_sum_per_row_rank rank : dist_sum_per_row rank = true <-> (1 < rank)%Z.
-Proof. unfold dist_sum_per_row. apply Z.ltb_lt. Qed.
+Proof. unfold dist_sum_per_row. lia. Qed.
 
 Lemma frag_sum_per_row t :
   sum_independent_dims t =
